@@ -1476,8 +1476,9 @@ static int sp_dgemm(char tA, char tB, number alpha, void *a, void *b,
             (double *)Z->values + Z->colptr[j], &intOne);
       }
 
-      if (beta.d != 0.0) {
+      {
         if (B->colptr[j+1]-B->colptr[j]) {
+          if (beta.d != 0.0)
           for (l=C->colptr[j]; l<C->colptr[j+1]; l++) {
             ((double *)Z->values)[Z->colptr[j]+C->rowind[l]] +=
                 beta.d*((double *)C->values)[l];
@@ -1939,12 +1940,13 @@ static int sp_zgemm(char tA, char tB, number alpha, void *a, void *b,
         }
       }
 
-#ifndef _MSC_VER
-      if (beta.z != 0.0) {
-#else
-      if (creal(beta.z) != 0.0 || cimag(beta.z) != 0.0) {
-#endif
+      {
         if (B->colptr[j+1]-B->colptr[j]) {
+#ifndef _MSC_VER
+          if (beta.z != 0.0)
+#else
+          if (creal(beta.z) != 0.0 || cimag(beta.z) != 0.0)
+#endif
           for (l=C->colptr[j]; l<C->colptr[j+1]; l++) {
 #ifndef _MSC_VER
             ((double complex *)Z->values)[Z->colptr[j]+C->rowind[l]] +=
